@@ -32,9 +32,9 @@ func init() {
 }
 
 type c05Consumer struct {
-	got   []common.RemoteUserLogin
+	got    []common.RemoteUserLogin
 	idents []string
-	atEnc []int // number of encoder calls seen when the login was received
+	atEnc  []int // number of encoder calls seen when the login was received
 }
 
 //go:norace
